@@ -518,6 +518,12 @@ def rule_k(R, ctx, rid="C17.k"):
 
 
 def check(ctx, R):
+    from . import shared as _sh
+    R.run("C17.m", lambda R, c: _sh.api_delegations(
+        R, c, "C17.m", _sh.READ_DELEGATIONS,
+        "R-PROV the read entry points construct their walkers over the receiver itself: siblings starts at the node's own item, "
+        "children / successors / first_child at the node's own branch, Map::iter / keys / values over the map's own branch; "
+        "has_deleted asks the transaction's delete set about the id it was given, StateVector::contains the id's own client"), ctx)
     R.run("C17.k", rule_k, ctx)
     R.run("C17.a", rule_a, ctx)
     R.run("C17.b", rule_b, ctx)
